@@ -16,6 +16,14 @@ THEOREMS = ["c08_one_point_per_match", "c08_only_watchers_get_rows", "c08_value_
             "c08_other_signals_unaffected", "c08_no_match_no_point", "c08_observers_never_stop_the_play"]
 
 SIG_STARTS = "actor-spotlight-not-run-exactly-once"
+# A line printed immediately before the spotlight process exits during the
+# shutdown can be lost (cmd.Wait closes the pipe while the drain goroutine is
+# still reading): seen on the unchanged tree under load only, i.e. not
+# deterministically.  The scenario that can show it (handlers that exit right
+# after their last line) is switched on once KNOWN_FINDINGS.json names this
+# signature (known: reported as KNOWN-FINDING when it shows; fixed: a
+# violation again); the handlers that linger 0.3 s are always there.
+SIG_LASTLINE = "line-printed-just-before-spotlight-exit-lost"
 BITS = [(1, "changed-sample-recorded-twice"), (2, "row-count-differs-from-matching-lines"),
         (4, "wrong-value-recorded"), (8, "wrong-time-recorded"), (16, "a-line-stopped-the-play")]
 
@@ -108,10 +116,16 @@ def describe_e2e(c):
             "replay": "write <actor>.txt/<actor>.sh as harness/c08/e2e.go does, run `shakespeare -o out --disable-plots -q play.cfg`, read out/*/csv"}
 
 
+def lastline_scenario_enabled():
+    return any(e.get("property") == PID and e.get("signature") == SIG_LASTLINE
+               for e in vlib.load_known().get("findings", []))
+
+
 def run_e2e(res, bins, seed, nplays):
     d = tempfile.mkdtemp(prefix="shk-c08-e2e-")
     try:
-        rc, o = vlib.run([bins["c08"], "-seed", str(seed), "-e2e", d, "-e2e-n", str(nplays)], timeout=600)
+        extra = ["-e2e-immediate"] if lastline_scenario_enabled() else []
+        rc, o = vlib.run([bins["c08"], "-seed", str(seed), "-e2e", d, "-e2e-n", str(nplays)] + extra, timeout=600)
         if rc != 0:
             res.violation(None, "harness crashed (e2e generation)", {"kind": "harness-crash", "output": o[-4000:]}, no_input=True)
             return None
@@ -162,7 +176,7 @@ def run(tier, seed):
     cases_v, cases, summary = r
     res.coverage.update({
         "evaluations": summary["cases"], "distinct_nontrivial": summary["distinct_nontrivial"],
-        "rule": "generated roles (1-2 roles x 1-4 signals: event/scalar/delta x ts_now/ts_deltasecs/ts_rfc3339/ts_log, expandable empty group or spelled-out \\S+ group, whole-line patterns, value classes \\S+ \\d+ [-+.0-9eE]+ \\w+ rest-of-line), 1-2 actors per role, 0-3 observers per signal through `watches <actor>` / `watches every <role>` clauses (+ an auditor mentioning a signal in 1 of 4), x 4-25 items (lines of all actors interleaved, matching 0/1/several signals, repeated and changing values in many numeral syntaxes, malformed numerals and dates, time going forth/back/equal/far future/before the play start, mood changes, end of play), all through the real detectSignals -> checkEvent -> collectObservation via the hook; non-trivial = distinct (config, items) with >= 3 lines and >= 3 expected rows",
+        "rule": "generated roles (1-2 roles x 1-4 signals: event/scalar/delta x ts_now/ts_deltasecs/ts_rfc3339/ts_log, expandable empty group or spelled-out \\S+ group, whole-line patterns, value classes \\S+ \\d+ [-+.0-9eE]+ \\w+ rest-of-line, and the everything-is-the-text shape that also matches the empty string), 1-3 actors per role (separate `plays` lines or siblings of one `p* play N role` line), 0-3 observers per signal through `watches <actor>` / `watches every <role>` clauses (+ an auditor mentioning a signal in 1 of 4), x 4-25 items (lines of all actors interleaved, blank lines, matching 0/1/several signals, repeated and changing values in many numeral syntaxes, malformed numerals and dates, time going forth/back/equal/far future/before the play start, mood changes, end of play), all through the real detectSignals -> checkEvent -> collectObservation via the hook; non-trivial = distinct (config, items) with >= 3 lines and >= 3 expected rows",
         "samples": summary["samples"][:2],
         "distribution": summary["stats"],
         "traces_validated_against_impl": summary["cases"],
@@ -203,6 +217,13 @@ def run(tier, seed):
                 d.pop("size", None)
                 d.update({"kind": "failing-input", "spotlight_starts": c["spotlight_starts"], "n_failing_plays": len(bad_starts)})
                 res.violation(SIG_STARTS, "an actor's spotlight command was not run exactly once (starts per actor: %s): its lines yield no point / several points" % c["spotlight_starts"], d)
+            lost = [c for c in ecases if c.get("lost_last_lines")]
+            if lost:
+                c = min(lost, key=lambda c: describe_e2e(c)["size"])
+                d = describe_e2e(c)
+                d.pop("size", None)
+                d.update({"kind": "failing-input", "lost_last_lines_of": c["lost_last_lines"], "n_failing_plays": len(lost)})
+                res.violation(SIG_LASTLINE, "the line a spotlight printed immediately before exiting at the end of the play yielded no data point (actors %s); everything else is as expected" % c["lost_last_lines"], d)
             eev = evaluate(res, ecases_v, tier + "e2e", 4, oracle_only=True)
             if eev is not None:
                 # rows doubled because a script ran twice are a row-count
@@ -213,7 +234,7 @@ def run(tier, seed):
                 report_oracle(res, eev["OC"], ecases, describe_e2e)
                 res.coverage["end_to_end_plays"] = {"plays": esummary["cases"], "stats": esummary["stats"],
                                                    "oracle_failures": sum(1 for c in eev["OC"] if c),
-                                                   "rule": "plays through the real binary with 2-4 actors (of one role and of different roles), each actor's spotlight script printing its own generated lines (stdout/stderr alternating, blanks, empty lines, uneven pace); per (observer, actor, signal) file the rows must be that actor's good lines exactly once, and every script must have been started exactly once"}
+                                                   "rule": "plays through the real binary with 2-4 actors (of one role and of different roles), each actor's spotlight script printing its own generated lines (stdout/stderr alternating, blanks around lines, blank lines, uneven pace) and one last line from its SIGHUP handler while the spotlight is being shut down at the end of the play; per (observer, actor, signal) file the rows must be that actor's good lines exactly once, and every script must have been started exactly once"}
                 if esummary["stats"].get("inconclusive-play-cut-short"):
                     res.notes.append("%d end-to-end plays ended before a spotlight had printed all its lines (sentinel row missing): not judged" % esummary["stats"]["inconclusive-play-cut-short"])
     return res.finish()
